@@ -23,7 +23,7 @@ RTOL = {0: 1e-12, 1: 5e-7, 2: 2e-6, 3: 2e-5}  # per perturbative order (measured
 ERRFAC = 20.0
 
 RULE = (
-    "states = (kind, heavyness, process, scheme, PTO, grid, Q2, x) over fully crossed named slices; x from the kinematic lattice K(G) "
+    "states = (kind, heavyness, process, scheme, PTO, grid, Q2, x[, points computed before in the same runner]) over fully crossed named slices; x from the kinematic lattice K(G) "
     "(nodes, block mid-points, node(1±1e-9), xmin(1+1e-9), 0.999, 1); per state one real compute_local() and the reference convolution of every "
     "kernel x order x basis function; oracle |O-O_ref| <= rtol_k*scale + 20*(err_yadism+err_ref) on all (k,0,0,0) keys with rtol_k = 1e-12, 5e-7, 2e-6, 2e-5 for k = 0..3, plus the span check with a "
     "degree<=deg polynomial in ln x (or x); non-trivial = the operator has a non-zero entry from a kernel with a regular or singular part (not only a delta)"
@@ -106,6 +106,13 @@ def slices(tier):
             for k, h, p, sc in itertools.product(["F2", "FL", "F3"], ["total", "charm", "bottom"], ["NC", "CC"], ["FFN03", "FFN04", "FONLL-FFNS4"])
             for xl, x in _xl("G6", "3")
         ]
+        # several points in ONE runner before the probed one (same x, other n_f regions): anything shared between kinematic points must not leak
+        s["M_multi"] = [
+            dict(_mk(k, "total", p, "ZM-VFNS", pto, "G6", q2, xl, x, "M"), before=before)
+            for k, p, pto in itertools.product(SF_KINDS, PROCS, [1, 2])
+            for (before, q2) in (([2.0, 10.0], 30.0), ([1e5, 30.0], 10.0))
+            for xl, x in _xl("G6", "3")[:2]
+        ]
         s["E_x1"] = [
             _mk(k, "total", p, sc, 1, "G6", 30.0, "one", 1.0, "E")
             for k, p, sc in itertools.product(SF_KINDS, PROCS, ["ZM-VFNS", "FFNS3"])
@@ -118,6 +125,14 @@ def slices(tier):
             for k, h, p, sc, pto, q2 in itertools.product(SF_KINDS, ["light", "total", "charm", "bottom", "charmlight"], PROCS, schemes, [0, 1], [4.0, 30.0, 2e4])
             for xl, x in (_xl(g, "all") if g == "G6" else _xl(g, "8"))
             if not (g != "G6" and (q2 == 2e4 or h in ("bottom", "charmlight")))
+        ]
+        s["M_multi"] = [
+            dict(_mk(k, h, p, sc, pto, g, q2, xl, x, "M"), before=before)
+            for g in ("G6", "L7")
+            for k, h, p, sc, pto in itertools.product(SF_KINDS, ["total", "light"], PROCS, ["ZM-VFNS", "FFNS3"], [1, 2])
+            for (before, q2) in (([2.0, 10.0], 30.0), ([1e5, 30.0], 10.0), ([30.0, 30.0], 4.0))
+            for xl, x in _xl(g, "3")[:2]
+            if not (g == "L7" and (pto == 2 or sc == "FFNS3"))
         ]
         s["C_pto23"] = [
             _mk(k, h, p, sc, pto, "G6", q2, xl, x, "C23")
@@ -132,7 +147,7 @@ def states(tier, seed):
     seen = set()
     for name, cells in slices(tier).items():
         for c in cells:
-            k = digest({kk: vv for kk, vv in c.items() if kk != "slice"})
+            k = digest({kk: vv for kk, vv in c.items() if kk != "slice"})  # 'before' is part of the identity
             if k in seen:
                 continue
             seen.add(k)
@@ -170,8 +185,11 @@ def execute(st):
     kin = cards.kin(st["x"], st["Q2"])
     fp = {k: st[k] for k in ("kind", "heavyness", "process", "scheme", "pto", "grid", "xlab")}
     try:
-        r = yrun.runner(cell, {name: [kin]})
-        esf = r.observables[name].elements[0]
+        before = [cards.kin(st["x"], q) for q in st.get("before", [])]
+        r = yrun.runner(cell, {name: before + [kin]})
+        if before:
+            r.get_result()  # the public path: all points, sorted by Q2, caches shared
+        esf = r.observables[name].elements[-1]
         res = esf.get_result()
         elems = cf.Combiner(esf).collect_elems()
     except Exception as e:
